@@ -18,6 +18,7 @@ def run(ctx):
     ctx.engines = ["clihist (WS client)", "httpbatch (HTTP client)"]
     hs = C.c12_batch_histories(ctx.rng, nmax=ctx.scale(4, 5), full=ctx.thorough)
     hs += C.c12_idseq_histories(ctx.rng, nmax=ctx.scale(4, 5))
+    hs += C.c12_mixed_array_histories(ctx.rng, nmax=ctx.scale(3, 4))
     hs += random_histories(ctx, ctx.scale(800, 80000))
     C.run_histories(ctx, hs, ["c12", "c03"])
     try:
